@@ -475,6 +475,10 @@ def defer_let_branches(body):
                 if init.get("k") == "If" and ("el" not in init or init["c"].get("k") == "Let"):
                     out.append(st)
                     continue
+                # a plain two-way value (`if c { a } else { b }`, no statements in the branches) stays an expression
+                if init.get("k") == "If" and not any(x.get("k") == "Block" and x.get("stmts") for x in _walk(init)) and not any(x.get("k") == "Match" for x in _walk(init)):
+                    out.append(st)
+                    continue
                 branching = assign_into(init, st["pat"])
                 if branching is not None:
                     decl = {k_: v_ for k_, v_ in st.items() if k_ != "init"}
